@@ -28,4 +28,77 @@ theorem sigBytes_spec (len : Nat) (h0 : 0 < len) (h : len < 2 ^ 64) :
   repeat' split
   all_goals (refine ⟨by omega, by omega, ?_⟩; omega)
 
+theorem foldl_be (l : Bytes) (acc : Nat) :
+    l.foldl (fun a (b : UInt8) => a * 256 + b.toNat) acc = acc * 256 ^ l.length + l.foldl (fun a (b : UInt8) => a * 256 + b.toNat) 0 := by
+  induction l generalizing acc with
+  | nil => simp
+  | cons x r ih =>
+    simp only [List.foldl_cons, List.length_cons, Nat.pow_succ]
+    rw [ih (acc * 256 + x.toNat), ih (0 * 256 + x.toNat)]
+    simp only [Nat.zero_mul, Nat.zero_add, Nat.add_mul]
+    rw [Nat.mul_assoc, Nat.mul_comm 256 (256 ^ r.length)]
+    omega
+
+theorem beVal_cons (x : UInt8) (r : Bytes) : beVal (x :: r) = x.toNat * 256 ^ r.length + beVal r := by
+  unfold beVal
+  rw [List.foldl_cons, foldl_be]
+  simp
+
+theorem beVal_lt (r : Bytes) : beVal r < 256 ^ r.length := by
+  induction r with
+  | nil => simp [beVal]
+  | cons x r ih =>
+    rw [beVal_cons, List.length_cons, Nat.pow_succ]
+    have hx := x.toNat_lt
+    have : x.toNat * 256 ^ r.length + beVal r < (x.toNat + 1) * 256 ^ r.length := by rw [Nat.add_mul]; omega
+    calc x.toNat * 256 ^ r.length + beVal r < (x.toNat + 1) * 256 ^ r.length := this
+      _ ≤ 256 * 256 ^ r.length := Nat.mul_le_mul_right _ (by omega)
+      _ = 256 ^ r.length * 256 := Nat.mul_comm _ _
+
+theorem beVal_dropZeros (b : Bytes) : beVal (b.dropWhile (· == 0)) = beVal b := by
+  induction b with
+  | nil => rfl
+  | cons x r ih =>
+    by_cases hx : x = 0
+    · subst hx; simp [List.dropWhile, ih, beVal_cons]
+    · have : (x == 0) = false := by simpa using hx
+      simp [List.dropWhile, this]
+
+theorem byteBits_spec (x : UInt8) (hx : x ≠ 0) : 2 ^ (byteBits x - 1) ≤ x.toNat ∧ x.toNat < 2 ^ byteBits x := by
+  have h0 : x.toNat ≠ 0 := by intro h; apply hx; exact UInt8.toNat_inj.mp (by simpa using h)
+  have hb : (x == 0) = false := by simpa using hx
+  simp only [byteBits, hb, Bool.false_eq_true, if_false, Nat.add_sub_cancel]
+  exact ⟨Nat.log2_self_le h0, Nat.lt_log2_self⟩
+
+/-- **`ByteString::bits` is the bit length of the number the bytes spell** (big endian): the value is below 2^bits, and at least 2^(bits-1) unless it is zero (bits = 0) -/
+theorem bits_spec (b : Bytes) : beVal b < 2 ^ bits b ∧ (bits b ≠ 0 → 2 ^ (bits b - 1) ≤ beVal b) := by
+  unfold bits
+  rw [← beVal_dropZeros b]
+  cases h : b.dropWhile (· == 0) with
+  | nil => simp [beVal]
+  | cons x r =>
+    have hx : x ≠ 0 := by
+      have hne : b.dropWhile (· == 0) ≠ [] := by rw [h]; simp
+      have := List.head_dropWhile_not (· == 0) hne
+      simp only [h, List.head_cons] at this
+      simpa using this
+    obtain ⟨hlo, hhi⟩ := byteBits_spec x hx
+    have h256 : (256 : Nat) ^ r.length = 2 ^ (r.length * 8) := by
+      rw [show (256 : Nat) = 2 ^ 8 by rfl, ← Nat.pow_mul, Nat.mul_comm]
+    have hr : beVal r < 2 ^ (r.length * 8) := by rw [← h256]; exact beVal_lt r
+    simp only []
+    rw [beVal_cons, h256]
+    have hbb : 1 ≤ byteBits x := by
+      have hb : (x == 0) = false := by simpa using hx
+      simp [byteBits, hb]
+    constructor
+    · calc x.toNat * 2 ^ (r.length * 8) + beVal r < (x.toNat + 1) * 2 ^ (r.length * 8) := by rw [Nat.add_mul]; omega
+        _ ≤ 2 ^ byteBits x * 2 ^ (r.length * 8) := Nat.mul_le_mul_right _ hhi
+        _ = 2 ^ (r.length * 8 + byteBits x) := by rw [← Nat.pow_add, Nat.add_comm]
+    · intro _
+      have he : r.length * 8 + byteBits x - 1 = (byteBits x - 1) + r.length * 8 := by omega
+      calc 2 ^ (r.length * 8 + byteBits x - 1) = 2 ^ (byteBits x - 1) * 2 ^ (r.length * 8) := by rw [he, Nat.pow_add]
+        _ ≤ x.toNat * 2 ^ (r.length * 8) := Nat.mul_le_mul_right _ hlo
+        _ ≤ x.toNat * 2 ^ (r.length * 8) + beVal r := Nat.le_add_right _ _
+
 end Shm.Pure
